@@ -119,6 +119,8 @@ class ScalarFormatter(object):
         :param float x: The value to format.
         :rtype: str
         """
+        if not np.isfinite(x):
+            return "%g" % x  # nothing to round (e.g. an infinite asymmetric uncertainty)
         # needed e.g. when rounding values like 9.999999 -> 10.0 (shift in decimal place)
         _rounded_x = abs(np.around(x, self._sig))
         # fallback to rounding to 10^(-1) if value is zero
@@ -356,8 +358,8 @@ class ParameterFormatter(FileIOMixin, object):
                     _min_err = min(abs(self.error_up), abs(self.error_down))
                 else:
                     _min_err = self.error
-                # fallback to rounding to 10^(-1) if error is zero
-                if not _min_err or np.isnan(_min_err):
+                # fallback to rounding to 10^(-1) if error is zero or not a finite number
+                if not _min_err or not np.isfinite(_min_err):
                     _min_err = 1e-1
 
                 # calculate decimal precision if rounding:
